@@ -5,15 +5,18 @@ EXTENDS Integers, Sequences, FiniteSets, TLC
 
 CONSTANTS Conns, MaxReq,
           NoChk2,        \* mutant: drop the closing() check after readRequest (proxy_conn.go:331)
-          DecBeforeClose \* mutant: decrement the counter before closing the socket
+          DecBeforeClose, \* mutant: decrement the counter before closing the socket
+          NoChk3         \* mutant (the code before fix e954358+1): no closing() check between two exchanges
 
 VARIABLES closeCh, mu, conns, wg, listener,     \* Proxy state
           pc, sock, inbox, nreq,                \* per connection
           sentAfter, fwd, resp,                 \* per connection, per request index: history
           sd, sdBegun, ctx, cl,                 \* Shutdown / Close callers
-          served                                \* conns ever registered before Shutdown took the lock
+          served,                               \* conns ever registered before Shutdown took the lock
+          willClose,                            \* per connection: writeResponse saw closing() before it wrote the head
+          atSd                                  \* conns whose exchange was with the origin / being written when the signal was given
 
-vars == <<closeCh, mu, conns, wg, listener, pc, sock, inbox, nreq, sentAfter, fwd, resp, sd, sdBegun, ctx, cl, served>>
+vars == <<closeCh, mu, conns, wg, listener, pc, sock, inbox, nreq, sentAfter, fwd, resp, sd, sdBegun, ctx, cl, served, willClose, atSd>>
 
 Req == 1..MaxReq
 Free == "free"
@@ -26,45 +29,46 @@ Init ==
   /\ fwd = [c \in Conns |-> [k \in Req |-> FALSE]]
   /\ resp = [c \in Conns |-> [k \in Req |-> FALSE]]
   /\ sd = "idle" /\ sdBegun = FALSE /\ ctx = "live" /\ cl = "idle" /\ served = {}
+  /\ willClose = [c \in Conns |-> FALSE] /\ atSd = {}
 
 (* ---------------- environment ---------------- *)
 \* Serve: closing() check, Accept, go handleLoop(conn)   (proxy.go:268-302)
 Accept(c) ==
   /\ pc[c] = "none" /\ listener = "open" /\ ~closeCh
   /\ pc' = [pc EXCEPT ![c] = "lock1"] /\ sock' = [sock EXCEPT ![c] = "open"]
-  /\ UNCHANGED <<closeCh, mu, conns, wg, listener, inbox, nreq, sentAfter, fwd, resp, sd, sdBegun, ctx, cl, served>>
+  /\ UNCHANGED <<closeCh, mu, conns, wg, listener, inbox, nreq, sentAfter, fwd, resp, sd, sdBegun, ctx, cl, served, willClose, atSd>>
 \* a connection can also be accepted by an Accept call that was already blocked when closeCh was closed
 AcceptLate(c) ==
   /\ pc[c] = "none" /\ listener = "open" /\ closeCh
   /\ pc' = [pc EXCEPT ![c] = "lock1"] /\ sock' = [sock EXCEPT ![c] = "open"]
   /\ listener' = "returned"            \* Serve returns on its next closing() check
-  /\ UNCHANGED <<closeCh, mu, conns, wg, inbox, nreq, sentAfter, fwd, resp, sd, sdBegun, ctx, cl, served>>
+  /\ UNCHANGED <<closeCh, mu, conns, wg, inbox, nreq, sentAfter, fwd, resp, sd, sdBegun, ctx, cl, served, willClose, atSd>>
 ListenerClose ==                       \* HTTPProxy.run closes listeners first (http_proxy.go:715)
   /\ listener = "open" /\ listener' = "closed"
-  /\ UNCHANGED <<closeCh, mu, conns, wg, pc, sock, inbox, nreq, sentAfter, fwd, resp, sd, sdBegun, ctx, cl, served>>
+  /\ UNCHANGED <<closeCh, mu, conns, wg, pc, sock, inbox, nreq, sentAfter, fwd, resp, sd, sdBegun, ctx, cl, served, willClose, atSd>>
 ClientSend(c) ==
   /\ sock[c] = "open" /\ inbox[c] = 0 /\ nreq[c] < MaxReq
-  /\ pc[c] \in {"lock1", "reg", "chk1", "read"}      \* client waits for its previous response
+  /\ pc[c] \in {"lock1", "reg", "chk1", "read", "chk3"}      \* client waits for its previous response
   /\ nreq' = [nreq EXCEPT ![c] = @ + 1] /\ inbox' = [inbox EXCEPT ![c] = 1]
   /\ sentAfter' = [sentAfter EXCEPT ![c][nreq[c] + 1] = sdBegun]
-  /\ UNCHANGED <<closeCh, mu, conns, wg, listener, pc, sock, fwd, resp, sd, sdBegun, ctx, cl, served>>
+  /\ UNCHANGED <<closeCh, mu, conns, wg, listener, pc, sock, fwd, resp, sd, sdBegun, ctx, cl, served, willClose, atSd>>
 ClientVanish(c) ==
   /\ sock[c] = "open" /\ sock' = [sock EXCEPT ![c] = "peerclosed"]
-  /\ UNCHANGED <<closeCh, mu, conns, wg, listener, pc, inbox, nreq, sentAfter, fwd, resp, sd, sdBegun, ctx, cl, served>>
+  /\ UNCHANGED <<closeCh, mu, conns, wg, listener, pc, inbox, nreq, sentAfter, fwd, resp, sd, sdBegun, ctx, cl, served, willClose, atSd>>
 CtxExpire ==
   /\ sd = "poll" /\ ctx = "live" /\ ctx' = "expired"
-  /\ UNCHANGED <<closeCh, mu, conns, wg, listener, pc, sock, inbox, nreq, sentAfter, fwd, resp, sd, sdBegun, cl, served>>
+  /\ UNCHANGED <<closeCh, mu, conns, wg, listener, pc, sock, inbox, nreq, sentAfter, fwd, resp, sd, sdBegun, cl, served, willClose, atSd>>
 
 (* ---------------- handleLoop(c)  (proxy.go:306-351) ---------------- *)
 Step(c, from, to) == pc[c] = from /\ pc' = [pc EXCEPT ![c] = to]
 HLock1(c) == /\ Step(c, "lock1", "reg") /\ mu = Free /\ mu' = c
-             /\ UNCHANGED <<closeCh, conns, wg, listener, sock, inbox, nreq, sentAfter, fwd, resp, sd, sdBegun, ctx, cl, served>>
+             /\ UNCHANGED <<closeCh, conns, wg, listener, sock, inbox, nreq, sentAfter, fwd, resp, sd, sdBegun, ctx, cl, served, willClose, atSd>>
 HReg(c)   == /\ Step(c, "reg", "chk1") /\ mu = c /\ mu' = Free
              /\ conns' = conns \cup {c} /\ wg' = wg + 1
              /\ served' = IF sd \in {"idle", "lock"} THEN served \cup {c} ELSE served
-             /\ UNCHANGED <<closeCh, listener, sock, inbox, nreq, sentAfter, fwd, resp, sd, sdBegun, ctx, cl>>
+             /\ UNCHANGED <<closeCh, listener, sock, inbox, nreq, sentAfter, fwd, resp, sd, sdBegun, ctx, cl, willClose, atSd>>
 HChk1(c)  == /\ pc[c] = "chk1" /\ pc' = [pc EXCEPT ![c] = IF closeCh THEN "close" ELSE "read"]
-             /\ UNCHANGED <<closeCh, mu, conns, wg, listener, sock, inbox, nreq, sentAfter, fwd, resp, sd, sdBegun, ctx, cl, served>>
+             /\ UNCHANGED <<closeCh, mu, conns, wg, listener, sock, inbox, nreq, sentAfter, fwd, resp, sd, sdBegun, ctx, cl, served, willClose, atSd>>
 \* readRequest returns: a request, or an error because the peer or Close() closed the socket
 HRead(c)  == /\ pc[c] = "read"
              /\ \/ /\ inbox[c] = 1 /\ sock[c] \in {"open", "peerclosed"}
@@ -72,61 +76,79 @@ HRead(c)  == /\ pc[c] = "read"
                    /\ pc' = [pc EXCEPT ![c] = IF NoChk2 THEN "rt" ELSE "chk2"]
                 \/ /\ (sock[c] = "closed" \/ (sock[c] = "peerclosed" /\ inbox[c] = 0))
                    /\ pc' = [pc EXCEPT ![c] = "close"] /\ UNCHANGED inbox
-             /\ UNCHANGED <<closeCh, mu, conns, wg, listener, sock, nreq, sentAfter, fwd, resp, sd, sdBegun, ctx, cl, served>>
+             /\ UNCHANGED <<closeCh, mu, conns, wg, listener, sock, nreq, sentAfter, fwd, resp, sd, sdBegun, ctx, cl, served, willClose, atSd>>
 HChk2(c)  == /\ pc[c] = "chk2" /\ pc' = [pc EXCEPT ![c] = IF closeCh THEN "close" ELSE "rt"]
-             /\ UNCHANGED <<closeCh, mu, conns, wg, listener, sock, inbox, nreq, sentAfter, fwd, resp, sd, sdBegun, ctx, cl, served>>
+             /\ UNCHANGED <<closeCh, mu, conns, wg, listener, sock, inbox, nreq, sentAfter, fwd, resp, sd, sdBegun, ctx, cl, served, willClose, atSd>>
 \* roundTrip: the request reaches the origin; the reply arrives later
 HRoundTrip(c) == /\ Step(c, "rt", "wait")
              /\ fwd' = [fwd EXCEPT ![c][nreq[c]] = TRUE]
-             /\ UNCHANGED <<closeCh, mu, conns, wg, listener, sock, inbox, nreq, sentAfter, resp, sd, sdBegun, ctx, cl, served>>
-OriginReply(c) == /\ Step(c, "wait", "write")
-             /\ UNCHANGED <<closeCh, mu, conns, wg, listener, sock, inbox, nreq, sentAfter, fwd, resp, sd, sdBegun, ctx, cl, served>>
-\* writeResponse: closing => Connection: close and errClose (proxy_conn.go:431-446, :497)
-HWrite(c) == /\ pc[c] = "write"
+             /\ UNCHANGED <<closeCh, mu, conns, wg, listener, sock, inbox, nreq, sentAfter, resp, sd, sdBegun, ctx, cl, served, willClose, atSd>>
+\* the origin's reply arrives in two steps: its head (and some of the body), then the end of the body
+OriginReply(c) == /\ Step(c, "wait", "whead")
+             /\ UNCHANGED <<closeCh, mu, conns, wg, listener, sock, inbox, nreq, sentAfter, fwd, resp, sd, sdBegun, ctx, cl, served, willClose, atSd>>
+\* writeResponse: closing() is consulted once, before the head is written: Connection: close and errClose
+\* (proxy_conn.go writeResponse); a client that has gone may be noticed here or at any later write
+HWriteHead(c) == /\ pc[c] = "whead"
+             /\ willClose' = [willClose EXCEPT ![c] = closeCh]
+             /\ \/ pc' = [pc EXCEPT ![c] = "wbody"]
+                \/ sock[c] # "open" /\ pc' = [pc EXCEPT ![c] = "close"]
+             /\ UNCHANGED <<closeCh, mu, conns, wg, listener, sock, inbox, nreq, sentAfter, fwd, resp, sd, sdBegun, ctx, cl, served, atSd>>
+HWriteAbort(c) == /\ pc[c] = "wbody" /\ sock[c] # "open" /\ pc' = [pc EXCEPT ![c] = "close"]
+             /\ UNCHANGED <<closeCh, mu, conns, wg, listener, sock, inbox, nreq, sentAfter, fwd, resp, sd, sdBegun, ctx, cl, served, willClose, atSd>>
+OriginFinish(c) == /\ Step(c, "wbody", "wend")
+             /\ UNCHANGED <<closeCh, mu, conns, wg, listener, sock, inbox, nreq, sentAfter, fwd, resp, sd, sdBegun, ctx, cl, served, willClose, atSd>>
+\* the rest of the body is written; then the connection is closed if the head said so, else handleLoop goes round:
+\* closing() is consulted again before the next request is awaited (proxy.go handleLoop)
+HWriteEnd(c) == /\ pc[c] = "wend"
              /\ resp' = [resp EXCEPT ![c][nreq[c]] = (sock[c] = "open")]
-             /\ pc' = [pc EXCEPT ![c] = IF closeCh \/ sock[c] # "open" THEN "close" ELSE "read"]
-             /\ UNCHANGED <<closeCh, mu, conns, wg, listener, sock, inbox, nreq, sentAfter, fwd, sd, sdBegun, ctx, cl, served>>
+             /\ pc' = [pc EXCEPT ![c] = IF willClose[c] \/ sock[c] # "open" THEN "close" ELSE IF NoChk3 THEN "read" ELSE "chk3"]
+             /\ UNCHANGED <<closeCh, mu, conns, wg, listener, sock, inbox, nreq, sentAfter, fwd, sd, sdBegun, ctx, cl, served, willClose, atSd>>
+HChk3(c)  == /\ pc[c] = "chk3" /\ pc' = [pc EXCEPT ![c] = IF closeCh THEN "close" ELSE "read"]
+             /\ UNCHANGED <<closeCh, mu, conns, wg, listener, sock, inbox, nreq, sentAfter, fwd, resp, sd, sdBegun, ctx, cl, served, willClose, atSd>>
 \* deferred: conn.Close(); connsWg.Add(-1); lock; delete; unlock
 HClose(c) == /\ IF DecBeforeClose THEN Step(c, "dec", "lock2") ELSE Step(c, "close", "dec")
              /\ sock' = [sock EXCEPT ![c] = "closed"]
-             /\ UNCHANGED <<closeCh, mu, conns, wg, listener, inbox, nreq, sentAfter, fwd, resp, sd, sdBegun, ctx, cl, served>>
+             /\ UNCHANGED <<closeCh, mu, conns, wg, listener, inbox, nreq, sentAfter, fwd, resp, sd, sdBegun, ctx, cl, served, willClose, atSd>>
 HDec(c)   == /\ IF DecBeforeClose THEN Step(c, "close", "dec") ELSE Step(c, "dec", "lock2")
              /\ wg' = wg - 1
-             /\ UNCHANGED <<closeCh, mu, conns, listener, sock, inbox, nreq, sentAfter, fwd, resp, sd, sdBegun, ctx, cl, served>>
+             /\ UNCHANGED <<closeCh, mu, conns, listener, sock, inbox, nreq, sentAfter, fwd, resp, sd, sdBegun, ctx, cl, served, willClose, atSd>>
 HLock2(c) == /\ Step(c, "lock2", "unreg") /\ mu = Free /\ mu' = c
-             /\ UNCHANGED <<closeCh, conns, wg, listener, sock, inbox, nreq, sentAfter, fwd, resp, sd, sdBegun, ctx, cl, served>>
+             /\ UNCHANGED <<closeCh, conns, wg, listener, sock, inbox, nreq, sentAfter, fwd, resp, sd, sdBegun, ctx, cl, served, willClose, atSd>>
 HUnreg(c) == /\ Step(c, "unreg", "done") /\ mu = c /\ mu' = Free /\ conns' = conns \ {c}
-             /\ UNCHANGED <<closeCh, wg, listener, sock, inbox, nreq, sentAfter, fwd, resp, sd, sdBegun, ctx, cl, served>>
+             /\ UNCHANGED <<closeCh, wg, listener, sock, inbox, nreq, sentAfter, fwd, resp, sd, sdBegun, ctx, cl, served, willClose, atSd>>
 
 (* ---------------- Shutdown(ctx)  (proxy.go:188-228): mutex held while polling ---------------- *)
 SdCall == /\ sd = "idle" /\ sd' = "lock"
-          /\ UNCHANGED <<closeCh, mu, conns, wg, listener, pc, sock, inbox, nreq, sentAfter, fwd, resp, sdBegun, ctx, cl, served>>
+          /\ UNCHANGED <<closeCh, mu, conns, wg, listener, pc, sock, inbox, nreq, sentAfter, fwd, resp, sdBegun, ctx, cl, served, willClose, atSd>>
+InExchange == {c \in Conns : pc[c] \in {"wait", "whead", "wbody", "wend"} /\ sock[c] = "open"}
 SdLock == /\ sd = "lock" /\ mu = Free /\ mu' = "sd" /\ closeCh' = TRUE /\ sd' = "poll" /\ sdBegun' = TRUE
-          /\ UNCHANGED <<conns, wg, listener, pc, sock, inbox, nreq, sentAfter, fwd, resp, ctx, cl, served>>
+          /\ atSd' = IF closeCh THEN atSd ELSE InExchange
+          /\ UNCHANGED <<conns, wg, listener, pc, sock, inbox, nreq, sentAfter, fwd, resp, ctx, cl, served, willClose>>
 SdPoll == /\ sd = "poll"
           /\ \/ wg = 0 /\ sd' = "nil"
              \/ wg # 0 /\ ctx = "expired" /\ sd' = "err"
           /\ mu' = Free
-          /\ UNCHANGED <<closeCh, conns, wg, listener, pc, sock, inbox, nreq, sentAfter, fwd, resp, sdBegun, ctx, cl, served>>
+          /\ UNCHANGED <<closeCh, conns, wg, listener, pc, sock, inbox, nreq, sentAfter, fwd, resp, sdBegun, ctx, cl, served, willClose, atSd>>
 (* ---------------- Close()  (proxy.go:231-249) ---------------- *)
 ClCall == /\ cl = "idle" /\ cl' = "lock"     \* Close may be called at any time (HTTPProxy.run calls it after a failed Shutdown)
-          /\ UNCHANGED <<closeCh, mu, conns, wg, listener, pc, sock, inbox, nreq, sentAfter, fwd, resp, sd, sdBegun, ctx, served>>
+          /\ UNCHANGED <<closeCh, mu, conns, wg, listener, pc, sock, inbox, nreq, sentAfter, fwd, resp, sd, sdBegun, ctx, served, willClose, atSd>>
 \* the mutex is held while every registered connection is closed, one after the other
 ClLock == /\ cl = "lock" /\ mu = Free /\ mu' = "cl" /\ cl' = "closing" /\ closeCh' = TRUE
-          /\ UNCHANGED <<conns, wg, listener, pc, sock, inbox, nreq, sentAfter, fwd, resp, sd, sdBegun, ctx, served>>
+          /\ atSd' = IF closeCh THEN atSd ELSE InExchange
+          /\ UNCHANGED <<conns, wg, listener, pc, sock, inbox, nreq, sentAfter, fwd, resp, sd, sdBegun, ctx, served, willClose>>
 ClConn(c) == /\ cl = "closing" /\ c \in conns /\ sock[c] \in {"open", "peerclosed"}
           /\ sock' = [sock EXCEPT ![c] = "closed"]
-          /\ UNCHANGED <<closeCh, mu, conns, wg, listener, pc, inbox, nreq, sentAfter, fwd, resp, sd, sdBegun, ctx, cl, served>>
+          /\ UNCHANGED <<closeCh, mu, conns, wg, listener, pc, inbox, nreq, sentAfter, fwd, resp, sd, sdBegun, ctx, cl, served, willClose, atSd>>
 ClDone == /\ cl = "closing" /\ (\A c \in conns : sock[c] = "closed") /\ cl' = "done" /\ mu' = Free
-          /\ UNCHANGED <<closeCh, conns, wg, listener, pc, sock, inbox, nreq, sentAfter, fwd, resp, sd, sdBegun, ctx, served>>
+          /\ UNCHANGED <<closeCh, conns, wg, listener, pc, sock, inbox, nreq, sentAfter, fwd, resp, sd, sdBegun, ctx, served, willClose, atSd>>
 ClDo == ClLock \/ ClDone \/ \E c \in Conns : ClConn(c)
 
-HNext(c) == HLock1(c) \/ HReg(c) \/ HChk1(c) \/ HRead(c) \/ HChk2(c) \/ HRoundTrip(c) \/ HWrite(c)
+HNext(c) == HLock1(c) \/ HReg(c) \/ HChk1(c) \/ HRead(c) \/ HChk2(c) \/ HRoundTrip(c) \/ HWriteHead(c) \/ HWriteAbort(c) \/ HWriteEnd(c) \/ HChk3(c)
             \/ HClose(c) \/ HDec(c) \/ HLock2(c) \/ HUnreg(c)
-Next == \/ \E c \in Conns : Accept(c) \/ AcceptLate(c) \/ ClientSend(c) \/ ClientVanish(c) \/ OriginReply(c) \/ HNext(c)
+Next == \/ \E c \in Conns : Accept(c) \/ AcceptLate(c) \/ ClientSend(c) \/ ClientVanish(c) \/ OriginReply(c) \/ OriginFinish(c) \/ HNext(c)
         \/ ListenerClose \/ CtxExpire \/ SdCall \/ SdLock \/ SdPoll \/ ClCall \/ ClDo
 
-Spec == Init /\ [][Next]_vars /\ \A c \in Conns : WF_vars(HNext(c) \/ OriginReply(c))
+Spec == Init /\ [][Next]_vars /\ \A c \in Conns : WF_vars(HNext(c) \/ OriginReply(c) \/ OriginFinish(c))
              /\ WF_vars(SdLock \/ SdPoll) /\ WF_vars(ClDo) /\ WF_vars(CtxExpire) /\ WF_vars(ClCall)
 
 (* ---------------- properties ---------------- *)
@@ -135,7 +157,10 @@ NoForwardAfterShutdown == \A c \in Conns, k \in Req : sentAfter[c][k] => ~fwd[c]
 \* Shutdown returns nil only when every connection that was being served is closed
 NilOnlyWhenDrained == sd = "nil" => \A c \in served : sock[c] = "closed"
 ErrOnlyIfCtx == sd = "err" => ctx = "expired"
-CountSane == wg = Cardinality({c \in Conns : pc[c] \in {"chk1","read","chk2","rt","wait","write","close"} \cup (IF DecBeforeClose THEN {} ELSE {"dec"})})
+CountSane == wg = Cardinality({c \in Conns : pc[c] \in {"chk1","read","chk2","rt","wait","whead","wbody","wend","chk3","close"} \cup (IF DecBeforeClose THEN {} ELSE {"dec"})})
+\* an exchange that was with its origin (or being answered) when the signal was given is completed and the connection is
+\* then closed: it never goes back to waiting for another request
+ClosedAfterInflight == \A c \in atSd : pc[c] # "read"
 \* liveness
 ForwardedCompletes == \A c \in Conns, k \in Req :
     (fwd[c][k] /\ sock[c] = "open") ~> (resp[c][k] \/ sock[c] # "open")
